@@ -34,6 +34,9 @@ NOTES = """Interpretation choices (read generously, see BUILDING.md rule 1):
   sheets and content away from A1. Each call must (b) return byte for byte what the same call returns on a freshly
   opened object and (a) present the spec's cells for the selected sheets in the selected order. "=== name ===" header
   lines of IncludeHeaders are not data lines.
+* the XML spelling of workbook.xml, its relationships and of the <c> attributes (r / s / t in any order, single
+  quotes, <c ...></c>, another prefix for the relationships namespace, an ignorable foreign id attribute on <sheet>,
+  comments between entries, no XML declaration / a byte order mark) never matters; some layouts use it.
 * ODT/DOCX/PPTX table spans are not part of C17's statement (spreadsheets only) and are not checked here.
 * generated files are valid ECMA-376: <row> without r (optional attribute) but cells with full
   references; rows and cells in any order (the schema does not order them); inline strings with
